@@ -59,6 +59,21 @@ fn idiom_all<T, F: Fn(&T) -> bool>(s: &Vec<T>, f: F) -> (r: bool)
         r ==> forall|i: int| 0 <= i < s@.len() ==> f.ensures((&s@[i],), true),
         !r ==> exists|i: int| 0 <= i < s@.len() && f.ensures((&s@[i],), false),
 { s.iter().all(f) }
+// T2: the same through `skip(k)` / `take(k)`: only the elements from k on / before k are examined
+#[verifier::external_body]
+fn idiom_all_skip<T, F: Fn(&T) -> bool>(s: &Vec<T>, k: usize, f: F) -> (r: bool)
+    requires forall|i: int| 0 <= i < s@.len() ==> f.requires((&s@[i],)),
+    ensures
+        r ==> forall|i: int| k <= i < s@.len() ==> f.ensures((&s@[i],), true),
+        !r ==> exists|i: int| k <= i < s@.len() && f.ensures((&s@[i],), false),
+{ s.iter().skip(k).all(f) }
+#[verifier::external_body]
+fn idiom_all_take<T, F: Fn(&T) -> bool>(s: &Vec<T>, k: usize, f: F) -> (r: bool)
+    requires forall|i: int| 0 <= i < s@.len() ==> f.requires((&s@[i],)),
+    ensures
+        r ==> forall|i: int| 0 <= i < s@.len() && i < k ==> f.ensures((&s@[i],), true),
+        !r ==> exists|i: int| 0 <= i < s@.len() && i < k && f.ensures((&s@[i],), false),
+{ s.iter().take(k).all(f) }
 #[verifier::external_body]
 fn idiom_any<T, F: Fn(&T) -> bool>(s: &Vec<T>, f: F) -> (r: bool)
     requires forall|i: int| 0 <= i < s@.len() ==> f.requires((&s@[i],)),
